@@ -1022,7 +1022,7 @@ func (store *KeyStore) destroyKeyWithFilename(filename string) error {
 // destroySymmetricKeyWithFilename removes symmetric key with given filename.
 func (store *KeyStore) destroySymmetricKeyWithFilename(filename string) error {
 	// Purge key data from cache too.
-	store.cache.Add(filename, nil)
+	store.cache.Add(getSymmetricKeyName(filename), nil)
 
 	// Remove key files. It's okay if they are already removed (or never existed).
 	// Keystore v1 does not differentiate between 'destroying' and 'removing' keys
